@@ -673,18 +673,21 @@ func (g *ArtGen) hiddenCarrier(kind string) {
 			g.w(`<div hidden>` + t(4) + `</div>`)
 		}
 	case "display-none":
-		g.w(`<div style="` + []string{"display:none", "display:none ", "display: none ;", "color:red;display:none", "display:\nnone;\n color:blue", "DISPLAY:none", "display:NONE", "display:none !important", "display: None!important; color:red"}[g.r.Intn(9)] + `">` + t(4) + `</div>`)
+		g.w(`<div style="` + []string{"display:none", "display:none ", "display: none ;", "color:red;display:none", "display:\nnone;\n color:blue", "DISPLAY:none", "display:NONE", "display:none !important", "display: None!important; color:red",
+			"display : none", "display\n: none;", "display:inline; display:none", "display:block; display:none !important", "--display:flex; display:none", "display:none/* hide */", "display:/* x */none", "color:red;;display:none;"}[g.r.Intn(17)] + `">` + t(4) + `</div>`)
 	case "vis-hidden":
 		switch g.r.Intn(4) {
 		case 0:
 			g.w(`<span class="fallback-image" style="visibility:hidden">` + t(3) + `</span>`)
 		case 1:
 			g.w(`<font style="visibility: hidden" face="x">` + t(2) + `</font>`)
+		case 2:
+			g.w(`<div style="` + []string{"visibility : hidden", "visibility:/* x */hidden", "visibility:visible; visibility:hidden", "VISIBILITY:HIDDEN", "color:red; visibility\n:\nhidden ;"}[g.r.Intn(5)] + `">` + t(3) + `</div>`)
 		default:
 			g.w(`<div style="visibility:hidden">` + t(3) + `</div>`)
 		}
 	case "vis-collapse":
-		g.w(`<div style="color:red; visibility: collapse">` + t(3) + `</div>`)
+		g.w(`<div style="` + []string{"color:red; visibility: collapse", "visibility : collapse", "visibility:collapse !important"}[g.r.Intn(3)] + `">` + t(3) + `</div>`)
 	case "aria-hidden":
 		if g.r.Intn(3) == 0 {
 			g.w(`<font aria-hidden="true">` + t(2) + `</font>`)
